@@ -392,20 +392,6 @@ theorem create_gidx (cfg : Meta) (b : Blind) : GidxOK (create cfg b) := by
 
 -- ------------------------------------------------------------------ the whole invariant, over every history
 
-/-- the only thing a recorded history must satisfy: every recorded random seat draw is one `RandomAssignSeats` could have
-made (a fact about the recording — the driver checks it on every trace) -/
-def DrawLegal (s : State) : Event → Prop
-  | .reserve j ch => findPlayerIdx s j.id = none → BatchLegal s [j] ch
-  | .update js lv ch => BatchLegal (if lv.isEmpty then s else (batchRemove s lv).1) js ch
-  | _ => True
-
-instance (s : State) (e : Event) : Decidable (DrawLegal s e) := by
-  cases e <;> (unfold DrawLegal; exact inferInstance)
-
-def DrawsLegal : State → List Event → Prop
-  | _, [] => True
-  | s, e :: t => DrawLegal s e ∧ DrawsLegal (step s e) t
-
 def Inv3 (s : State) : Prop := Booked s ∧ Agree s ∧ GidxOK s
 
 theorem eventLegal_of_draw (s : State) (e : Event) (h : Inv3 s) (hd : DrawLegal s e) : EventLegal s e := by
